@@ -69,7 +69,7 @@ Definition STORE_HDR : bytes :=
   [0; 0; 0; 0; 106; 117; 109; 98; 0; 0; 0; 30; 106; 117; 109; 100;
    99; 50; 112; 97; 0; 17; 0; 16; 128; 0; 0; 170; 0; 56; 155; 113; 3; 99; 50; 112; 97; 0].
 
-Definition store_byte (seed i : N) : N := (i * i * 7 + i * seed + seed * 13 + 5) mod 256.
+Definition store_byte (seed i : N) : N := N.land (i * i * 7 + i * seed + seed * 13 + 5) 255.
 
 Fixpoint gen_body (fuel : nat) (seed i : N) : bytes :=
   match fuel with
